@@ -118,3 +118,104 @@ Proof.
   pose proof (exit_le_proportional _ _ _ _ _ HR Hsh Hfee Hc) as HF.
   cbn [s_res s_shares s_sf]. repeat split; auto. apply exit_state; auto.
 Qed.
+
+(* ---------- sequences of proportional operations (balancer pool; the stableswap case is identical) ---------- *)
+Definition prop_op_valid (o : op) : Prop :=
+  match o with
+  | OJoinNoSwap a | OCalcJoinNoSwap a => Forall (fun x => 0 <= x) a
+  | OExit s | OCalcExit s => 0 <= s
+  | _ => False
+  end.
+Definition wf_b (p : bpool) : Prop := Forall (fun r => 0 < r) (b_res p) /\ 0 < b_shares p.
+(* reserve per share of every token did not fall from p to p' *)
+Definition no_dilution (p p' : bpool) : Prop :=
+  Forall2 (fun r r' => r * b_shares p' <= r' * b_shares p) (b_res p) (b_res p').
+
+Lemma no_dilution_refl p : no_dilution p p.
+Proof. unfold no_dilution. induction (b_res p); constructor; auto; lia. Qed.
+
+Lemma no_dilution_trans p1 p2 p3 : 0 <= b_shares p1 -> 0 < b_shares p2 -> 0 <= b_shares p3 -> Forall (fun r => 0 < r) (b_res p2) ->
+  no_dilution p1 p2 -> no_dilution p2 p3 -> no_dilution p1 p3.
+Proof.
+  unfold no_dilution. intros HS1 HS HS3 HR H12. revert HR. generalize (b_res p3).
+  induction H12 as [|r1 r2 l1 l2 H Hl IH]; intros l3 HR H23; inversion H23; subst; constructor.
+  - inversion HR; subst.
+    (* r1 S2 <= r2 S1, r2 S3 <= y S2  =>  r1 S3 <= y S1 *)
+    assert (Ha : r1 * b_shares p2 * b_shares p3 <= r2 * b_shares p1 * b_shares p3) by (apply Z.mul_le_mono_nonneg_r; assumption).
+    assert (Hb : r2 * b_shares p3 * b_shares p1 <= y * b_shares p2 * b_shares p1) by (apply Z.mul_le_mono_nonneg_r; assumption).
+    assert (Hc : (r1 * b_shares p3) * b_shares p2 <= (y * b_shares p1) * b_shares p2) by lia.
+    apply Z.mul_le_mono_pos_r in Hc; assumption.
+  - inversion HR; subst. apply IH; auto.
+Qed.
+
+Lemma per_share_up_no_dilution R S R' S' (p p' : bpool) :
+  b_res p = R -> b_shares p = S -> b_res p' = R' -> b_shares p' = S' -> per_share_up R S R' S' -> no_dilution p p'.
+Proof.
+  intros; subst. unfold no_dilution, per_share_up in *. induction H3; constructor; auto. lia.
+Qed.
+Lemma per_share_down_no_dilution R S R' S' (p p' : bpool) :
+  b_res p = R -> b_shares p = S -> b_res p' = R' -> b_shares p' = S' -> per_share_down R S R' S' -> no_dilution p p'.
+Proof.
+  intros; subst. unfold no_dilution, per_share_down in *. induction H3; constructor; auto. lia.
+Qed.
+
+Lemma b_step_prop fee ef p o : wf_b p -> prop_op_valid o -> 0 <= ef <= P18 ->
+  let p' := snd (b_step fee ef p o) in wf_b p' /\ no_dilution p p'.
+Proof.
+  intros [HR HS] Hv Hef. cbv zeta.
+  destruct o; cbn [prop_op_valid] in Hv; try contradiction; cbn [b_step].
+  - (* joinNoSwap *)
+    destruct (b_join_no_swap p amts) as [[ns p']|e] eqn:E; cbn [snd]; [|split; [split; auto|apply no_dilution_refl]].
+    destruct (b_join_no_swap_sound _ _ _ _ HR ltac:(lia) Hv E) as (Hns & Hsh & _ & Hup).
+    split.
+    + split; [|lia]. unfold per_share_up in Hup. clear - Hup HR.
+      induction Hup; constructor; inversion HR; subst; auto; lia.
+    + apply (per_share_up_no_dilution (b_res p) (b_shares p) (b_res p') (b_shares p')); auto.
+  - (* calcJoinNoSwap: the pool is not touched *)
+    destruct (b_calc_join_no_swap p amts) as [[ns j]|e]; cbn [snd]; (split; [split; auto|apply no_dilution_refl]).
+  - (* exit *)
+    destruct (b_exit p sh ef) as [[c p']|e] eqn:E; cbn [snd]; [|split; [split; auto|apply no_dilution_refl]].
+    destruct (b_exit_sound _ _ _ _ _ HR Hv Hef E) as (Hlt & Hsh & _ & _ & _ & Hdown).
+    split.
+    + split; [|lia]. unfold per_share_down in Hdown. clear - Hdown.
+      induction Hdown; constructor; auto; lia.
+    + apply (per_share_down_no_dilution (b_res p) (b_shares p) (b_res p') (b_shares p')); auto.
+  - destruct (b_calc_exit p sh ef) as [c|e]; cbn [snd]; (split; [split; auto|apply no_dilution_refl]).
+Qed.
+
+Fixpoint b_run (fee ef : Z) (p : bpool) (ops : list op) : bpool :=
+  match ops with [] => p | o :: r => b_run fee ef (snd (b_step fee ef p o)) r end.
+
+(* no_profit_sequence (proportional operations, sequences of any length): whatever an actor does with no-swap joins and
+   exits, the reserve of every token per outstanding share never falls - the other share holders are never diluted *)
+Theorem no_profit_sequence_proportional fee ef ops : forall p,
+  wf_b p -> Forall prop_op_valid ops -> 0 <= ef <= P18 ->
+  wf_b (b_run fee ef p ops) /\ no_dilution p (b_run fee ef p ops).
+Proof.
+  induction ops as [|o r IH]; intros p Hwf Hv Hef; cbn [b_run].
+  - split; [auto|apply no_dilution_refl].
+  - inversion Hv; subst.
+    destruct (b_step_prop fee ef p o Hwf H1 Hef) as [Hwf' Hnd].
+    destruct (IH _ Hwf' H2 Hef) as [Hwf'' Hnd'].
+    split; [exact Hwf''|]. destruct Hwf' as [HR' HS']. destruct Hwf as [_ HS0]. destruct Hwf'' as [_ HS2].
+    apply (no_dilution_trans p (snd (b_step fee ef p o))); auto; lia.
+Qed.
+
+(* the round trip: join without swap, then exit the minted shares - never more of any token back than was joined *)
+Theorem no_profit_join_exit p amts ns p' ef coins p'' :
+  wf_b p -> Forall (fun a => 0 <= a) amts -> 0 <= ef <= P18 ->
+  b_join_no_swap p amts = Ok (ns, p') -> b_exit p' ns ef = Ok (coins, p'') ->
+  Forall2 (fun rr o => o <= snd rr - fst rr) (zip (b_res p) (b_res p')) coins.
+Proof.
+  intros [HR HS] HA Hef Hj He.
+  destruct (b_join_no_swap_sound _ _ _ _ HR ltac:(lia) HA Hj) as (Hns & Hsh & _ & Hup).
+  assert (HR' : Forall (fun r => 0 < r) (b_res p')).
+  { unfold per_share_up in Hup. clear - Hup HR. induction Hup; constructor; inversion HR; subst; auto; lia. }
+  destruct (b_exit_sound _ _ _ _ _ HR' Hns Hef He) as (_ & _ & _ & _ & Hex & _).
+  unfold per_share_up in Hup. revert Hex. generalize coins. clear - Hup Hsh HS Hns.
+  induction Hup as [|r r' l l' [Hle Hps] Hup IH]; intros cs Hex; inversion Hex; subst; cbn [zip]; constructor.
+  - cbn [fst snd]. destruct H1 as [Ho Hp].
+    (* o S' <= ns r' and r S' <= r' S with S' = S + ns  =>  o <= r' - r *)
+    rewrite Hsh in *. nia.
+  - apply IH; auto.
+Qed.
